@@ -220,13 +220,44 @@ uint32_t g_nguards = 0;
 uint8_t *g_covhit = nullptr;
 uintptr_t *g_covpc = nullptr;
 static void event_slow(Task &t);
+static void event_slow_tramp(void *p) { event_slow(*(Task *)p); }
+enum { ALT_STACK_SIZE = 256 * 1024 };
+
+static inline __attribute__((always_inline)) void alt_call_inl(Task *t, void (*fn)(void *), void *arg) {
+    t->on_alt = true;
+    void *top = t->alt_stack + ALT_STACK_SIZE - 64;
+#if defined(__x86_64__)
+    // no instruction here writes to the current stack: the return address of the call lands on the
+    // alternate stack, the old stack pointer is kept there too
+    __asm__ volatile(
+        "mov %%rsp, %%rax\n\t"
+        "mov %[top], %%rsp\n\t"
+        "push %%rax\n\t"
+        "sub $8, %%rsp\n\t"
+        "call *%[fn]\n\t"
+        "add $8, %%rsp\n\t"
+        "pop %%rsp\n\t"
+        : [fn] "+S"(fn), "+D"(arg), [top] "+d"(top)
+        :
+        : "rax", "rcx", "r8", "r9", "r10", "r11", "memory", "cc", "xmm0", "xmm1", "xmm2", "xmm3", "xmm4", "xmm5", "xmm6", "xmm7", "xmm8",
+          "xmm9", "xmm10", "xmm11", "xmm12", "xmm13", "xmm14", "xmm15");
+#else
+    fn(arg);
+#endif
+    t->on_alt = false;
+}
+void alt_call(void (*fn)(void *), void *arg) {
+    Task *t = t_self;
+    if (!t || !t->alt_stack || t->on_alt) { fn(arg); return; }
+    alt_call_inl(t, fn, arg);
+}
 enum { EV_CAP = 40 * 1000 * 1000 };
 
 static inline __attribute__((always_inline)) void on_event() {
     Task *t = t_self;
     if (!t || !t->in_op) return;
     t->ev++;
-    if (t->countdown && --t->countdown == 0) event_slow(*t);
+    if (t->countdown && --t->countdown == 0) alt_call_inl(t, event_slow_tramp, t);
     else if (__builtin_expect(t->ev > EV_CAP, 0)) {
         fprintf(stderr, "sim: runaway op (more than %d events)\n", EV_CAP);
         if (g_crash_hook) g_crash_hook(-1);
@@ -352,71 +383,84 @@ static bool alloc_request(Task *t, uintptr_t ra, uint32_t *site_out) {
     }
     return false;
 }
+struct AllocCall {
+    int kind; // 0 malloc, 1 calloc, 2 realloc, 3 free
+    size_t a, b;
+    void *old;
+    uintptr_t ra;
+    void *result;
+};
+static void alloc_body(void *p_) {
+    AllocCall *c = (AllocCall *)p_;
+    Task *t = t_self;
+    bool save = t->in_op;
+    t->in_op = false;
+    if (c->kind == 3) {
+        if (c->old) {
+            untrack(c->old);
+            sim_log(LOG_FREE, t->id, 0);
+        }
+        free(c->old);
+        t->in_op = save;
+        return;
+    }
+    uint32_t s;
+    c->result = nullptr;
+    if (alloc_request(t, c->ra, &s)) errno = ENOMEM;
+    else if (c->kind == 0) {
+        c->result = malloc(c->a);
+        g_live.push_back({c->result, c->a, s, t->id, t->cur_op});
+    } else if (c->kind == 1) {
+        c->result = calloc(c->a, c->b);
+        g_live.push_back({c->result, c->a * c->b, s, t->id, t->cur_op});
+    } else {
+        // keep the attribution of the block to the op that first allocated it
+        int owner_task = t->id, owner_op = t->cur_op;
+        for (auto &a : g_live)
+            if (a.p == c->old) { owner_task = a.task; owner_op = a.op; }
+        if (c->old) untrack(c->old);
+        c->result = realloc(c->old, c->a);
+        g_live.push_back({c->result, c->a, s, owner_task, owner_op});
+    }
+    t->in_op = save;
+}
 extern "C" {
 void *__wrap_malloc(size_t n) {
     Task *t = t_self;
     if (!t || !t->op) return malloc(n);
-    bool save = t->in_op;
-    t->in_op = false;
-    uint32_t s;
-    void *p = nullptr;
-    if (alloc_request(t, (uintptr_t)__builtin_return_address(0), &s)) errno = ENOMEM;
-    else {
-        p = malloc(n);
-        g_live.push_back({p, n, s, t->id, t->cur_op});
-    }
-    t->in_op = save;
+    AllocCall c = {0, n, 0, nullptr, (uintptr_t)__builtin_return_address(0), nullptr};
+    alt_call(alloc_body, &c);
+    void *r = c.result;
+    c.result = nullptr;
     on_event();
-    return p;
+    return r;
 }
 void *__wrap_calloc(size_t a, size_t b) {
     Task *t = t_self;
     if (!t || !t->op) return calloc(a, b);
-    bool save = t->in_op;
-    t->in_op = false;
-    uint32_t s;
-    void *p = nullptr;
-    if (alloc_request(t, (uintptr_t)__builtin_return_address(0), &s)) errno = ENOMEM;
-    else {
-        p = calloc(a, b);
-        g_live.push_back({p, a * b, s, t->id, t->cur_op});
-    }
-    t->in_op = save;
+    AllocCall c = {1, a, b, nullptr, (uintptr_t)__builtin_return_address(0), nullptr};
+    alt_call(alloc_body, &c);
+    void *r = c.result;
+    c.result = nullptr;
     on_event();
-    return p;
+    return r;
 }
 void *__wrap_realloc(void *old, size_t n) {
     Task *t = t_self;
     if (!t || !t->op) return realloc(old, n);
-    bool save = t->in_op;
-    t->in_op = false;
-    uint32_t s;
-    void *p = nullptr;
-    if (alloc_request(t, (uintptr_t)__builtin_return_address(0), &s)) errno = ENOMEM;
-    else {
-        // keep the attribution of the block to the op that first allocated it
-        int owner_task = t->id, owner_op = t->cur_op;
-        for (auto &a : g_live)
-            if (a.p == old) { owner_task = a.task; owner_op = a.op; }
-        if (old) untrack(old);
-        p = realloc(old, n);
-        g_live.push_back({p, n, s, owner_task, owner_op});
-    }
-    t->in_op = save;
+    AllocCall c = {2, n, 0, old, (uintptr_t)__builtin_return_address(0), nullptr};
+    alt_call(alloc_body, &c);
+    void *r = c.result;
+    c.result = nullptr;
     on_event();
-    return p;
+    return r;
 }
 void __wrap_free(void *p) {
     Task *t = t_self;
-    if (t && t->op && p) {
-        bool save = t->in_op;
-        t->in_op = false;
-        untrack(p);
-        sim_log(LOG_FREE, t->id, 0);
-        t->in_op = save;
-    }
-    free(p);
-    if (t && t->op) on_event();
+    if (!t || !t->op) { free(p); return; }
+    AllocCall c = {3, 0, 0, p, 0, nullptr};
+    alt_call(alloc_body, &c);
+    on_event();
 }
 
 // non-reentrant libc entry points: referenced by the library only if a change
@@ -438,21 +482,31 @@ char *__wrap_setlocale(int cat, const char *loc) { on_event(); char *r = setloca
 }
 
 // ------------------------------------------------------------------ handlers
-void note_handler(int hid, int kind, const char *msg, int code) {
+struct HandlerCall {
+    int hid, kind, code;
+    const char *msg;
+};
+static void handler_body(void *p_) {
+    HandlerCall *c = (HandlerCall *)p_;
     Task *t = t_self;
-    if (!t || !t->op) return;
     bool save = t->in_op;
     t->in_op = false;
     HCall h;
-    h.hid = hid;
-    h.kind = kind;
-    h.code = code;
-    h.msgh = msg ? hash_bytes(msg, strlen(msg)) : 0;
+    h.hid = c->hid;
+    h.kind = c->kind;
+    h.code = c->code;
+    h.msgh = c->msg ? hash_bytes(c->msg, strlen(c->msg)) : 0;
     h.task = t->id;
-    sim_log(LOG_HANDLER, ((uint64_t)t->id << 32) | (uint32_t)hid, (uint64_t)(uint32_t)code);
+    sim_log(LOG_HANDLER, ((uint64_t)t->id << 32) | (uint32_t)c->hid, (uint64_t)(uint32_t)c->code);
     h.seq = g_sim.seq;
     t->res[t->cur_op].hcalls.push_back(h);
     t->in_op = save;
+}
+void note_handler(int hid, int kind, const char *msg, int code) {
+    Task *t = t_self;
+    if (!t || !t->op) return;
+    HandlerCall c = {hid, kind, code, msg};
+    alt_call(handler_body, &c);
     on_event();
 }
 extern "C" void sim_handler_log(const char *msg, void *, int error) { note_handler(1, 0, msg, error); }
@@ -663,6 +717,8 @@ void run_pass(const Plan &plan, const PassCfg &cfg, Strategy &strat, PassResult 
     while (g_pool.size() < plan.tasks.size()) {
         Task *t = new Task();
         sem_init(&t->sem, 0, 0);
+        t->alt_stack = (uint8_t *)mmap(nullptr, ALT_STACK_SIZE, PROT_READ | PROT_WRITE, MAP_PRIVATE | MAP_ANONYMOUS, -1, 0);
+        if (t->alt_stack == MAP_FAILED) { perror("mmap alt stack"); _exit(2); }
         g_pool.push_back(t);
     }
     for (size_t i = 0; i < plan.tasks.size(); i++) {
@@ -675,6 +731,7 @@ void run_pass(const Plan &plan, const PassCfg &cfg, Strategy &strat, PassResult 
         t->ev = 0;
         t->countdown = 0;
         t->in_op = false;
+        t->on_alt = false;
         t->op = nullptr;
         t->th_valid = false;
         t->res.assign(plan.tasks[i].ops.size(), OpResult());
